@@ -340,10 +340,10 @@ class WireLog():
         A file fsync moves from operating system buffer to disk.
         """
         if self.filed:
-            if not self.rxl.closed:
+            if self.rxl and not self.rxl.closed:
                 self.rxl.flush()
                 os.fsync(self.rxl.fileno())
-            if not self.txl.closed and not self.samed:
+            if self.txl and not self.txl.closed and not (self.samed and self.txl is self.rxl):
                 self.txl.flush()
                 os.fsync(self.txl.fileno())
 
